@@ -367,6 +367,9 @@ def main(argv=None):
         except Unsupported as e:
             ck.count("outside-model:" + str(e)[:40])
             continue
+        except HarnessBroken as e:          # the recorded calls contradict the modelled plumbing
+            ck.disagreement("query", f"{text!r}: {e}", {"query": text, "stream": stream, "harness": str(e)})
+            continue
         wire.append(case)
         expect.append((stream, text, log, wantw))
 
